@@ -48,7 +48,7 @@ class CountingIter:
 def gen_cases(tier, seed):
     rng = random.Random(seed)
     cases = []
-    profiles = ['slow-consumer', 'slow-worker', 'slow-source', 'fast', 'bursty']
+    profiles = ['slow-consumer', 'slow-worker', 'slow-source', 'fast', 'bursty', 'long-stall']
     reps = 1 if tier == 'quick' else 12
     for rep in range(reps):
         for op in ('fifo', 'parmap-thread', 'buffer', 'parmap-async', 'aparmap-thread', 'aparmap-async', 'abuffer'):
@@ -57,6 +57,8 @@ def gen_cases(tier, seed):
                     if op in ('buffer', 'abuffer') and prof == 'slow-worker':
                         continue
                     if op.startswith('a') and prof == 'bursty' and tier == 'quick':
+                        continue
+                    if prof == 'long-stall' and tier == 'quick' and size not in (1, 3):
                         continue
                     length = rng.choice([50, 200, 600] if tier == 'quick' else [50, 200, 1000, 2000])
                     unbounded = rng.random() < 0.3
@@ -98,6 +100,9 @@ def run_case(case):
         work_sleep = 0.004
     elif prof == 'slow-source':
         src_pause = lambda k: 0.002  # noqa: E731
+    elif prof == 'long-stall':
+        # the consumer stops pulling for longer than the usual polling constants (0.1 s, 1 s) while everything upstream is full
+        cons_pause = lambda k: (1.12 if k == 3 else (0.13 if k == 6 else 0))  # noqa: E731
     elif prof == 'bursty':
         cons_pause = lambda k: 0.02 if k % 17 == 0 else 0  # noqa: E731
         work_sleep = 0.0005
